@@ -195,8 +195,37 @@ def run_pairs(ctx, env, name, X, y, extra, rs, terms, descs, vsel=None):
     return base
 
 
+def refit_histories(ctx, rs):
+    """one estimator object refitted after set_params of layout-stage hyperparameters only (scikit-learn protocol): graph_ must stay
+    bit-identical from fit to fit and equal a fresh estimator's (nothing the layout stage did to the previous graph_ may leak)"""
+    n = 40
+    X = rs.normal(size=(n, 4)).astype(np.float32); X[:12] += 3
+    y = (X[:, 0] > 1).astype(np.int64)
+    for name, yy, extra in (("unsupervised", None, {}), ("supervised", y, {}), ("densmap", None, dict(densmap=True)), ("mix0.3", None, dict(set_op_mix_ratio=0.3))):
+        est = umap.UMAP(n_neighbors=5, random_state=3, n_epochs=30, **extra)
+        steps = [dict(), dict(n_epochs=5), dict(n_epochs=0, learning_rate=3.0), dict(n_epochs=[7, 3]), dict(n_epochs=40, init="random", min_dist=0.4),
+                 dict(n_components=3, repulsion_strength=2.0, negative_sample_rate=2)]
+        ref = None
+        for i, st in enumerate(steps):
+            d = dict(op="refit", scenario=name, step=i, set_params={k: jsonable(v) for k, v in st.items()}, X=X, y=yy)
+            try:
+                est.set_params(**st); est.fit(X, yy)
+            except Exception as e:
+                ctx.count("refit_raised:%s" % type(e).__name__); continue
+            check_graph(ctx, est, None, d, "UMAP.fit(refit)")
+            sig = graph_sig(est)
+            ctx.tag(("refit", name, i), ["refit_same_estimator"])
+            if ref is None: ref = sig
+            elif sig != ref:
+                ctx.fail("UMAP.fit(refit).graph_:depends_on_layout_history", "graph_ after set_params(%s) and refit differs from the first fit's" % st, d)
+        fresh = umap.UMAP(n_neighbors=5, random_state=3, n_epochs=30, **extra).fit(X, yy)
+        if ref is not None and graph_sig(fresh) != ref:
+            ctx.fail("UMAP.fit(refit).graph_:differs_from_fresh_estimator", "graph_ of the refitted estimator differs from a fresh estimator's (%s)" % name, dict(op="refit", scenario=name, X=X, y=yy))
+
+
 def other_graph_producers(ctx, env, rs):
     """update() and the combination operators: result graphs hold no stored zeros and do not depend on n_epochs of the operands"""
+    refit_histories(ctx, rs)
     n = 36
     X = rs.normal(size=(n, 4)).astype(np.float32); X2 = rs.normal(size=(9, 4)).astype(np.float32)
     sigs = {}
